@@ -322,6 +322,11 @@ func (maps *trackedMaps) processUnfiltered(ctx context.Context, ef *Filter, filt
 				v.SetMapIndex(key, f)
 
 			case fkind == reflect.Map:
+				if tracked, ok := maps.getTracked(field.Pointer()); ok && tracked != m {
+					// a taggable's tags point into this map: it is tracked on its own,
+					// with the fields those tags have filtered, and has its own turn
+					continue
+				}
 				newMaps, err := newTrackedMaps(&tMap{value: field})
 				if err != nil {
 					return fmt.Errorf("%s: unable to filter map: %w", op, err)
